@@ -114,10 +114,6 @@ func genC11(repo string) (string, string, error) {
 		return "", "", err
 	}
 	maxArr, maxNest := defArr, defNest
-	src, err := os.ReadFile(filepath.Join(repo, "ipld/ipldbindcode/cbor.go"))
-	if err != nil {
-		return "", "", err
-	}
 	usesDefaultMode := false
 	ast.Inspect(cf, func(n ast.Node) bool {
 		call, ok := n.(*ast.CallExpr)
@@ -131,7 +127,6 @@ func genC11(repo string) (string, string, error) {
 		}
 		return true
 	})
-	_ = src
 	if !usesDefaultMode {
 		found := false
 		ast.Inspect(cf, func(n ast.Node) bool {
